@@ -424,3 +424,46 @@ class Liveness:
                     if s[0] == "call" and s[1] == self.phi_id and s not in out:
                         out.append(s)
         return out
+
+
+# ----------------------------------------------------------------------- update_nodes_liveness
+class NodesLiveness:
+    def __init__(self, fx, roles):
+        self.fx, self.roles = fx, roles
+        self.fn = roles.update_nodes_liveness
+        live_nodes = [f for f in fx.methods_of("Chitchat") if f.get("inputs") == ["&Chitchat"] and f["id"].endswith("::live_nodes")]
+        node_state = [f for f in fx.methods_of("Chitchat") if f.get("inputs") == ["&Chitchat", "&types::ChitchatId"]
+                      and f.get("output") == "std::option::Option<&state::NodeState>"]
+        self.live_nodes_fn = live_nodes[0] if live_nodes else None
+        self.node_state_fn = node_state[0] if node_state else None
+        self.keep = {"update_node_liveness": roles.fd_update_node_liveness["id"], "remove_node": roles.remove_node["id"],
+                     "garbage_collect": roles.fd_garbage_collect["id"]}
+        if self.live_nodes_fn:
+            self.keep["live_nodes"] = self.live_nodes_fn["id"]
+        if self.node_state_fn:
+            self.keep["node_state"] = self.node_state_fn["id"]
+        self.eng = Engine(fx, no_inline=set(self.keep.values()), opaque_pure={self.keep.get("live_nodes"), self.keep.get("node_state")})
+        self.rows = self.eng.table(self.fn["id"], arg_terms={1: ("ptr", ("S", "self"), ())})
+        self.OWN = ("proj", ("proj", ("obj", ("S", "self")), ("f", "Chitchat", "config")), ("f", "configuration::ChitchatConfig", "chitchat_id"))
+        self.PREV = ("proj", ("obj", ("S", "self")), ("f", "Chitchat", "previous_live_nodes"))
+
+    def calls(self, row, role):
+        fid = self.keep.get(role)
+        return [e for e in row.events if e[0] == "call" and e[1] == fid]
+
+    def not_self_guard(self, row, idterm):
+        """the path condition contains `idterm != own id` (True) / `==` (False) / None"""
+        forms = [idterm]
+        if idterm[0] == "ptr" and idterm[1][0] == "D" and idterm[2] == ():
+            forms.append(idterm[1][1])
+            forms.append(("obj", idterm[1]))
+        for f in forms[1:]:
+            r = self.not_self_guard(row, f)
+            if r is not None:
+                return r
+        for c in row.cond:
+            if c[0] == "truth" and c[1][0] == "op" and c[1][1] in ("Eq", "Ne"):
+                ops = (c[1][2], c[1][3])
+                if self.OWN in ops and idterm in ops:
+                    return (c[1][1] == "Ne") == c[2]
+        return None
